@@ -112,8 +112,11 @@ class Config:
         self._write()
 
     def _write(self):
+        # Serialise before opening the file: a value that json cannot store must not
+        # leave a truncated settings file behind (every later import would then fail)
+        data = json.dumps(self._config, indent=4)
         with open(self._internal_settings_file, 'w') as f:
-            json.dump(self._config, f, indent=4)
+            f.write(data)
 
     def _get_setting(self, setting):
         try:
@@ -123,6 +126,8 @@ class Config:
         return value
 
     def _set_setting(self, setting, value):
+        # Reject a value that cannot be stored before anything is changed
+        json.dumps(value)
         self._config[setting] = value
         self._write()
 
